@@ -3,6 +3,7 @@ package value
 import (
 	"context"
 	"fmt"
+	"math"
 
 	"github.com/smarthome-go/homescript/v3/homescript/errors"
 )
@@ -50,4 +51,21 @@ func (self ValueInt) IntoIter() func() (Value, bool) {
 func NewValueInt(inner int64) *Value {
 	val := Value(ValueInt{Inner: inner})
 	return &val
+}
+
+// Integer exponentiation with 64-bit wrap-around (exact, unlike going through float64,
+// which loses precision above 2^53). Negative exponents keep the truncated float result.
+func IntPow(base int64, exponent int64) int64 {
+	if exponent < 0 {
+		return int64(math.Pow(float64(base), float64(exponent)))
+	}
+	result := int64(1)
+	for exponent > 0 {
+		if exponent&1 == 1 {
+			result *= base
+		}
+		base *= base
+		exponent >>= 1
+	}
+	return result
 }
